@@ -46,6 +46,8 @@ LoadFails(e) ==
         F(e.doc = "nonjson" => (e.seterr = 1 /\ nnew = 0), "C07.nonjson")
         \cup F(e.doc \in {"keys", "keysextra", "single", "toparray", "jsonother"} => nnew = DocItemCount(e.doc, nk), "C07.count")
         \cup F(\A i \in 1..nnew : P_C07item(e.new[i]), "C07.item")
+        \* "allbad": a document none of whose keys can be imported (whatever else it is): refused as a whole or item by item
+        \cup F(e.doc = "allbad" => (e.seterr = 1 \/ \A i \in 1..nnew : e.new[i].err = 1), "C07.allbad")
         \cup F(e.doc \in {"keys", "keysextra", "single"} =>
                  \A i \in 1..m : (e.keys[i].bad = 0 /\ e.keys[i].kid # NONE) => e.new[i].kid = e.keys[i].kid, "C07.order")
    ELSE {})
@@ -53,6 +55,7 @@ LoadFails(e) ==
         F(e.doc \in {"keys", "keysextra", "single"} =>
             \A i \in 1..m : e.keys[i].bad = 0 => P_C08item(e.new[i], e.keys[i]), "C08.item")
         ELSE {})
+  \cup (IF On("C11") THEN F(e.doc = "allbad" => (e.seterr = 1 \/ \A i \in 1..nnew : e.new[i].err = 1), "C11.member") ELSE {})
   \cup (IF On("C14") THEN F(\A i \in 1..nnew : e.new[i].err = 1 => e.new[i].msg = 1, "C14.itemmsg") ELSE {})
   \cup (IF On("C16") THEN
         F(e.retnull = 0 => e.ids = Ids(old) \o [i \in 1..nnew |-> nextId + i - 1], "C16.append")
@@ -225,6 +228,10 @@ GenerateFails(e) ==
   \cup (IF On("C15") /\ b.hascb /\ Has(e, "cbres")
         THEN CbFails([hdr |-> b.hdr, clm |-> GenClaims(b, now), cfg |-> GenCfg0(b), ret |-> 0, touched |-> FALSE], b.cb, e.cbres, 1)
         ELSE {})
+  \* the builder's maps hold what was stored on the BUILDER: operations on the token object (by the callback, or the
+  \* library's own iat/nbf/exp stamps) do not show through
+  \cup (IF On("C15") /\ Has(e, "hdr_after") /\ ~(Has(e, "lite") /\ e.lite = 1)
+        THEN F(MapOfList(e.hdr_after) = b.hdr /\ MapOfList(e.clm_after) = b.clm, "C15.builder-after-generate") ELSE {})
   \cup (IF Prop = "FULL" THEN F(ref.ret = ANY \/ ref.ret = e.ret, "FULL.generate") ELSE {})
 
 (***************************************************************************)
